@@ -25,8 +25,8 @@ Definition probe_wiring_ok : bool :=
   String.eqb elastic_get_method "GET" && negb elastic_get_checks_status &&
   (elastic_new_timeout_ns =? elastic_default_timeout_ns) && String.eqb elastic_new_proto_from "proto" &&
   (* docker: one context.WithTimeout(ctx, dataTimeout) taken first and used by both calls; Info fatal,
-     ServerVersion best effort; client options: version negotiation, the scanner's HTTP client and
-     scheme, host tcp://ip:port which is also the record's host *)
+     ServerVersion best effort; client options: version negotiation, a per-probe copy of the scanner's HTTP client, the
+     scanner's scheme, host tcp://ip:port which is also the record's host *)
   docker_info_err_fatal && docker_version_err_ignored &&
   docker_rec_info_is_info && docker_rec_version_is_version &&
   String.eqb docker_rec_scantype "ScanType" && String.eqb docker_scan_type "docker" &&
@@ -34,8 +34,15 @@ Definition probe_wiring_ok : bool :=
   String.eqb docker_rec_host "fmt.Sprintf('tcp://%s:%d',request.DstIP.String(),request.DstPort)" &&
   String.eqb docker_timeout_from "scanner.dataTimeout" && docker_timeout_first && docker_calls_use_timeout_ctx &&
   strs_eqb docker_client_opts
-    ["WithAPIVersionNegotiation()"; "WithHTTPClient(scanner.client)"; "WithScheme(scanner.proto)";
+    ["WithAPIVersionNegotiation()"; "WithHTTPClient(copy(scanner.client))"; "WithScheme(scanner.proto)";
      "WithHost(fmt.Sprintf('tcp://%s:%d',request.DstIP.String(),request.DstPort))"]%string &&
+  (* moby's options configure the transport they are given from the environment (WithHost -> sockets.ConfigureTransport:
+     Proxy := ProxyFromEnvironment, Dial := a dialer from ALL_PROXY).  The client handed to moby is therefore the probe's
+     OWN copy of the scanner's http.Client with its OWN clone of the scanner's transport (nothing mutable is shared
+     between the probes of different workers), and after the options ran the proxy function and the dialer are taken out
+     again, so the probed host is the only host the probe connects to *)
+  String.eqb docker_probe_transport "clone(scanner.client.Transport)" &&
+  strs_eqb docker_transport_resets ["Dial"; "Proxy"]%string &&
   (docker_new_timeout_ns =? docker_default_timeout_ns) && String.eqb docker_new_proto_from "proto" &&
   (* one Scanner is shared by all workers of the engine: Scan (and elasticClient.Get) neither write to
      their receiver nor hand out pointers into it; the moby client is created inside Scan (docker_client_opts) *)
